@@ -260,6 +260,46 @@ func c19Ops() []c19Op {
 			}
 			return nil
 		}},
+		c19Op{name: "SetType(type with as many fields under other names)", do: func(y *c19Sys) error {
+			// same NUMBER of fields as the collection has now, none of the names
+			n := len(y.m.fields)
+			d := TypeD{Name: "t"}
+			for i := 0; i < n; i++ {
+				if i%2 == 0 {
+					d.Attrs = append(d.Attrs, AttrD{fmt.Sprintf("q%d", i), kPInt})
+				} else {
+					d.Rels = append(d.Rels, RelD{fmt.Sprintf("q%d", i), false, "u", ""})
+				}
+			}
+			t := d.SoftType()
+			y.newT = &t
+			y.col.SetType(y.newT)
+			y.m.fields = fieldsOfType(t)
+			for _, e := range y.m.list {
+				e.vals = map[string]any{}
+			}
+			return nil
+		}},
+		c19Op{name: "rename through the type pointer: RemoveAttr(b) + AddAttr(b2)", do: func(y *c19Sys) error {
+			if y.m.field("b") == nil || !y.m.field("b").attr || y.m.field("b2") != nil {
+				return nil
+			}
+			y.col.Type.RemoveAttr("b")
+			if err := y.col.Type.AddAttr(j.Attr{Name: "b2", Type: j.AttrTypeString}); err != nil {
+				return err
+			}
+			var nf []c19Field
+			for _, f := range y.m.fields {
+				if f.name != "b" {
+					nf = append(nf, f)
+				}
+			}
+			y.m.fields = append(nf, c19Field{name: "b2", attr: true, k: kStr})
+			for _, e := range y.m.list {
+				delete(e.vals, "b")
+			}
+			return nil
+		}},
 		c19Op{name: "original R1 .Set(a) .Set(many) .Set(id)", do: func(y *c19Sys) error {
 			if r := y.orig["R1"]; r != nil {
 				r.Set("a", "MUTATED")
@@ -427,7 +467,7 @@ func c19BFS(c *Ctx) *mc.BFS {
 func init() {
 	Register(&Prop{
 		ID: "C19",
-		Rule: "Engine B: breadth-first search over ALL histories (depth <= 4 quick / 5 thorough) of 21 operations on a real SoftCollection whose type has been set: Add of 7 resources (same type, second id, duplicate id, narrower, wider, conflicting kind/cardinality for the same field name, wrapped struct), Remove(1|2|9), AddAttr(new|duplicate|invalid), AddRel(new|duplicate), SetType(same pointer|new type), Set on the original resources after they were added; de-duplicated by deep snapshot. After every step Len, At(-1..Len), Resource(id), GetType and Get of every current field of every stored resource are compared with a list model (order, ids, well-typed values snapshotted at Add, zero for later fields). Every state beyond the initial one is non-trivial",
+		Rule: "Engine B: breadth-first search over ALL histories (depth <= 4 quick / 5 thorough) of 23 operations on a real SoftCollection whose type has been set: Add of 7 resources (same type, second id, duplicate id, narrower, wider, conflicting kind/cardinality for the same field name, wrapped struct), Remove(1|2|9), AddAttr(new|duplicate|invalid), AddRel(new|duplicate), SetType(same pointer|new type), Set on the original resources after they were added; de-duplicated by deep snapshot. After every step Len, At(-1..Len), Resource(id), GetType and Get of every current field of every stored resource are compared with a list model (order, ids, well-typed values snapshotted at Add, zero for later fields). Every state beyond the initial one is non-trivial",
 		Assumptions: []string{"after SetType(new type) values of fields that keep name and kind are expected to be retained (natural reading; only the field set is stated)", "only later Set calls on the original are judged, not in-place mutation of its slices"},
 		Harnesses: []Harness{{Name: "C19/histories",
 			Custom: func(c *Ctx) {
